@@ -312,6 +312,7 @@ class StmtMixin:
         key = (f.fname, ordinal)
         tag = 'loop%d' % ordinal
         ctx = self.clause_ctx(f, 'inv')
+        ctx.pre_state = self.st.copy()
         # 1. invariant holds on entry
         for name, text in spec.invariants.items():
             self.oblige('loop_inv_entry', '%s.%s' % (tag, name), self.inv_clause(text, ctx), 'on entry: ' + text, n)
